@@ -9,7 +9,8 @@ scaling to their common smaller exponent). `mathCmp op x y` is the truth of `x o
 
 Contexts (`Ctx`): `.expr` = the `Binary` arm of `eval_expr_with_functions` (`.where`, `.having`,
 `.emit`), `.pattern` = `eval_binary_op` (`.pattern` lambdas), `.sase` = sase.rs `compare_values`
-(sequence-step filters). `Mode.fixed` is the tree after the two C08 `fix:` commits,
+(sequence-step filters). `Mode.fixed` is the tree after the two C08 `fix:` commits (which leave
+`eval_binary_op`'s `<=`/`>=` alone because the repo's tests pin its behaviour — known finding),
 `Mode.old` the unchanged tree. No magnitude guard anywhere: the statements hold for every `i64`
 and every non-NaN `f64`, including beyond 2^53, ±0, ±∞.
 Float arithmetic (`fo`) is universally quantified: comparisons do not depend on it.
@@ -18,28 +19,53 @@ namespace Varpulis.Props.C08
 open Varpulis.Expr
 
 /-- In every context, each of `<`, `<=`, `>`, `>=` on two numeric operands (int/int, float/float,
-int/float, float/int) yields exactly the mathematical truth of the comparison. -/
+int/float, float/int) yields exactly the mathematical truth of the comparison — except in the one
+place still unrepaired (`patternGap`: `<=`/`>=` on an integer and a float inside a `.pattern`
+lambda, see `pattern_le_ge_mixed_counterexample`). -/
 theorem cmp_correct (fo : FOps) (ctx : Ctx) (op : CmpOp) (l r : Value) (x y : Ext)
-    (hl : numExt l = some x) (hr : numExt r = some y) :
+    (hl : numExt l = some x) (hr : numExt r = some y) (hgap : patternGap ctx op l r = false) :
     evalCmp fo .fixed ctx op l r = some (mathCmp op x y) := by
   cases ctx <;> cases op <;>
-    simp [evalCmp, CmpOp.toBinOp, binop, patternBinop, saseCmp, mathCmp,
-      cmpVals_fixed _ l r x y hl hr, saseCompare_fixed l r x y hl hr]
+    first
+    | (simp [evalCmp, CmpOp.toBinOp, binop, patternBinop, saseCmp, mathCmp,
+        cmpVals_fixed _ l r x y hl hr, saseCompare_fixed l r x y hl hr]; done)
+    | (simp [patternGap] at hgap
+       simp [evalCmp, CmpOp.toBinOp, patternBinop, mathCmp, cmpValsSameKind_exact _ l r x y hl hr hgap])
+
+/-- full strength (no exception) outside `.pattern` lambdas: `.where`, `.having`, `.emit` and
+sequence-step filters -/
+theorem cmp_correct_where_emit_having_steps (fo : FOps) (ctx : Ctx) (hctx : ctx ≠ .pattern) (op : CmpOp)
+    (l r : Value) (x y : Ext) (hl : numExt l = some x) (hr : numExt r = some y) :
+    evalCmp fo .fixed ctx op l r = some (mathCmp op x y) :=
+  cmp_correct fo ctx op l r x y hl hr (by cases ctx <;> simp_all [patternGap])
+
+/-- The known finding: the full-strength statement is false in the `.pattern` context.
+`5 >= 4.0` has no value there (`eval_binary_op` lacks the mixed `Ge`/`Le` arms and the repo's
+tests/evaluator_pattern_tests.rs asserts that), although it is mathematically true. -/
+theorem pattern_le_ge_mixed_counterexample (fo : FOps) :
+    ¬ (∀ (ctx : Ctx) (op : CmpOp) (l r : Value) (x y : Ext), numExt l = some x → numExt r = some y →
+        evalCmp fo .fixed ctx op l r = some (mathCmp op x y)) := by
+  intro h
+  have := h .pattern .ge (.int 5) (.float (.fin false 1 2)) (intExt 5) (.fin ⟨1, 2⟩) rfl
+    (by simp [numExt, F.ext, F.snum])
+  simp [evalCmp, CmpOp.toBinOp, patternBinop, cmpValsSameKind] at this
 
 /-- `a >= b` holds exactly when `a > b` or the values are numerically equal. -/
 theorem ge_iff_gt_or_eq (fo : FOps) (ctx : Ctx) (l r : Value) (x y : Ext)
-    (hl : numExt l = some x) (hr : numExt r = some y) :
+    (hl : numExt l = some x) (hr : numExt r = some y) (hgap : patternGap ctx .ge l r = false) :
     evalCmp fo .fixed ctx .ge l r = some true ↔
       (evalCmp fo .fixed ctx .gt l r = some true ∨ Ext.cmp x y = .eq) := by
-  rw [cmp_correct fo ctx .ge l r x y hl hr, cmp_correct fo ctx .gt l r x y hl hr]
+  rw [cmp_correct fo ctx .ge l r x y hl hr hgap,
+    cmp_correct fo ctx .gt l r x y hl hr (by simp [patternGap])]
   cases h : Ext.cmp x y <;> simp [mathCmp, CmpOp.holds, h]
 
 /-- `a <= b` holds exactly when `a < b` or the values are numerically equal. -/
 theorem le_iff_lt_or_eq (fo : FOps) (ctx : Ctx) (l r : Value) (x y : Ext)
-    (hl : numExt l = some x) (hr : numExt r = some y) :
+    (hl : numExt l = some x) (hr : numExt r = some y) (hgap : patternGap ctx .le l r = false) :
     evalCmp fo .fixed ctx .le l r = some true ↔
       (evalCmp fo .fixed ctx .lt l r = some true ∨ Ext.cmp x y = .eq) := by
-  rw [cmp_correct fo ctx .le l r x y hl hr, cmp_correct fo ctx .lt l r x y hl hr]
+  rw [cmp_correct fo ctx .le l r x y hl hr hgap,
+    cmp_correct fo ctx .lt l r x y hl hr (by simp [patternGap])]
   cases h : Ext.cmp x y <;> simp [mathCmp, CmpOp.holds, h]
 
 /-- The same on whole expressions: if the operands of `l op r` evaluate to numbers, a `.where` /
@@ -58,12 +84,14 @@ theorem where_keeps_iff (fo : FOps) (env : Env) (op : CmpOp) (l r : Expr) (lv rv
 
 /-- The order used is a genuine order on the denoted numbers: reflexive-equal, antisymmetric,
 so `>`/`<` and `>=`/`<=` are mirror images. -/
-theorem cmp_swap (fo : FOps) (ctx : Ctx) (l r : Value) (x y : Ext)
+theorem cmp_swap (fo : FOps) (ctx : Ctx) (hctx : ctx ≠ .pattern) (l r : Value) (x y : Ext)
     (hl : numExt l = some x) (hr : numExt r = some y) :
     evalCmp fo .fixed ctx .gt l r = evalCmp fo .fixed ctx .lt r l ∧
       evalCmp fo .fixed ctx .ge l r = evalCmp fo .fixed ctx .le r l := by
-  rw [cmp_correct fo ctx .gt l r x y hl hr, cmp_correct fo ctx .lt r l y x hr hl,
-    cmp_correct fo ctx .ge l r x y hl hr, cmp_correct fo ctx .le r l y x hr hl]
+  rw [cmp_correct_where_emit_having_steps fo ctx hctx .gt l r x y hl hr,
+    cmp_correct_where_emit_having_steps fo ctx hctx .lt r l y x hr hl,
+    cmp_correct_where_emit_having_steps fo ctx hctx .ge l r x y hl hr,
+    cmp_correct_where_emit_having_steps fo ctx hctx .le r l y x hr hl]
   simp only [mathCmp, Ext.cmp_rev x y]
   cases Ext.cmp x y <;> simp [CmpOp.holds, Ordering.rev]
 
@@ -88,7 +116,7 @@ theorem old_ge_mixed_has_no_value (fo : FOps) :
       evalCmp fo .fixed .expr .ge (.float (.fin false 63 (-1))) (.int 30) = some true := by
   refine ⟨by simp [evalCmp, CmpOp.toBinOp, binop, cmpVals], ?_, ?_⟩
   · simp only [evalCmp, CmpOp.toBinOp, binop, cmpVals]; decide
-  · rw [cmp_correct fo .expr .ge _ _ (.fin ⟨63, -1⟩) (intExt 30) (by simp [numExt, F.ext, F.snum]) rfl]
+  · rw [cmp_correct fo .expr .ge _ _ (.fin ⟨63, -1⟩) (intExt 30) (by simp [numExt, F.ext, F.snum]) rfl rfl]
     decide
 
 /-- Beyond 2^53 the cast `(a as f64)` rounds: `2^53 + 1 > 2^53.0` came out false in the old tree
@@ -101,7 +129,7 @@ theorem old_cast_is_not_the_order (fo : FOps) :
   refine ⟨h, ?_, ?_⟩
   · simp only [evalCmp, CmpOp.toBinOp, binop, cmpVals, h]; decide
   · rw [cmp_correct fo .expr .gt _ _ (intExt 9007199254740993) (.fin ⟨1, 53⟩) rfl
-      (by simp [numExt, F.ext, F.snum])]
+      (by simp [numExt, F.ext, F.snum]) rfl]
     decide
 
 /-- non-vacuity: mixed operands on both sides of 2^53, fractional, negative zero -/
@@ -111,10 +139,10 @@ example (fo : FOps) :
       evalCmp fo .fixed .expr .lt (.int 9007199254740992) (.float (.fin false 18014398509481985 (-1))) = some true := by
   refine ⟨?_, ?_, ?_⟩
   · rw [cmp_correct fo .sase .le _ _ (intExt (-9223372036854775808)) (.fin ⟨-1, 63⟩) rfl
-      (by simp [numExt, F.ext, F.snum])]; decide
-  · rw [cmp_correct fo .pattern .lt _ _ (.fin ⟨0, 0⟩) (intExt 0) (by simp [numExt, F.ext, F.snum]) rfl]
+      (by simp [numExt, F.ext, F.snum]) rfl]; decide
+  · rw [cmp_correct fo .pattern .lt _ _ (.fin ⟨0, 0⟩) (intExt 0) (by simp [numExt, F.ext, F.snum]) rfl rfl]
     decide
   · rw [cmp_correct fo .expr .lt _ _ (intExt 9007199254740992) (.fin ⟨18014398509481985, -1⟩) rfl
-      (by simp [numExt, F.ext, F.snum])]; decide
+      (by simp [numExt, F.ext, F.snum]) rfl]; decide
 
 end Varpulis.Props.C08
